@@ -97,7 +97,7 @@ func VerifH_done() {
 		case isBind && kind == 0 && c.ctx.hasGcp && inReply && !pre.bound[x] && onInPool:
 			verifReach("key bound")
 			verifAssert(post.bound[x] && post.boundSC[x] == onSC, "C01: successful BIND did not bind the key to the channel the call was placed on")
-		case isUnbind && kind == 0 && c.keyed && c.key == k:
+		case isUnbind && kind == 0 && c.unbinds && c.unbindKey == k:
 			verifReach("key unbound")
 			verifAssert(!post.bound[x], "C01: successful UNBIND did not remove the binding")
 		default:
